@@ -16,36 +16,36 @@ func init() {
 }
 
 const (
-	fmGo    = "go/store/nbs/file_manifest.go"
-	manGo   = "go/store/nbs/manifest.go"
-	storeGo = "go/store/nbs/store.go"
-	tsGo    = "go/store/nbs/table_set.go"
-	jrnGo   = "go/store/nbs/journal.go"
-	pruneGo = "go/store/nbs/prune_grace.go"
-	ftpGo   = "go/store/nbs/file_table_persister.go"
+	man_fmGo    = "go/store/nbs/file_manifest.go"
+	man_manGo   = "go/store/nbs/manifest.go"
+	man_storeGo = "go/store/nbs/store.go"
+	man_tsGo    = "go/store/nbs/table_set.go"
+	man_jrnGo   = "go/store/nbs/journal.go"
+	man_pruneGo = "go/store/nbs/prune_grace.go"
+	man_ftpGo   = "go/store/nbs/file_table_persister.go"
 )
 
 func genManifestOrder(c *ctx) error {
 	// (i) fileManifest.Update / UpdateGCGen / LockManifest: the LOCK region
 	for _, fn := range []string{"Update", "UpdateGCGen", "LockManifest"} {
-		fd, err := c.mustFunc(fmGo, "fileManifest", fn)
+		fd, err := c.manMustFunc(man_fmGo, "fileManifest", fn)
 		if err != nil {
 			return err
 		}
-		evs := c.events(fmGo, fd, nil)
-		if err := need("fileManifest."+fn, evs, "call:tryFileLock"); err != nil {
+		evs := c.manEvents(man_fmGo, fd, nil)
+		if err := manNeed("fileManifest."+fn, evs, "call:tryFileLock"); err != nil {
 			return err
 		}
 		c.defStringList("fileManifest"+fn, evs)
 	}
 	// (ii)–(iv) updateManifest
-	fd, err := c.mustFunc(storeGo, "NomsBlockStore", "updateManifest")
+	fd, err := c.manMustFunc(man_storeGo, "NomsBlockStore", "updateManifest")
 	if err != nil {
 		return err
 	}
 	watch := map[string]bool{"nbs.upstream": true, "nbs.tables": true, "nbs.memtable": true}
-	evs := c.events(storeGo, fd, watch)
-	if err := need("updateManifest", evs, "if:nbs.upstream.root != last", "call:nbs.manifest.Update", "call:nbs.errorIfDangling",
+	evs := c.manEvents(man_storeGo, fd, watch)
+	if err := manNeed("updateManifest", evs, "if:nbs.upstream.root != last", "call:nbs.manifest.Update", "call:nbs.errorIfDangling",
 		"call:generateLockHash", "assign:nbs.upstream", "if:newContents.lock != upstream.lock", "call:nbs.tables.append",
 		"call:nbs.addPendingRefsToHasCache", "call:nbs.handlePossibleDanglingRefError", "closure:assign:nbs.upstream"); err != nil {
 		return err
@@ -58,11 +58,11 @@ func genManifestOrder(c *ctx) error {
 			switch exprName(ce.Fun) {
 			case "generateLockHash":
 				for _, a := range ce.Args {
-					lockArgs = append(lockArgs, c.src(storeGo, a))
+					lockArgs = append(lockArgs, c.src(man_storeGo, a))
 				}
 			case "nbs.manifest.Update":
 				for _, a := range ce.Args {
-					updArgs = append(updArgs, c.src(storeGo, a))
+					updArgs = append(updArgs, c.src(man_storeGo, a))
 				}
 			}
 		}
@@ -83,7 +83,7 @@ func genManifestOrder(c *ctx) error {
 		if cl, ok := as.Rhs[0].(*ast.CompositeLit); ok {
 			for _, e := range cl.Elts {
 				if kv, ok := e.(*ast.KeyValueExpr); ok {
-					fields = append(fields, [2]string{exprName(kv.Key), strings.Join(strings.Fields(c.src(storeGo, kv.Value)), " ")})
+					fields = append(fields, [2]string{exprName(kv.Key), strings.Join(strings.Fields(c.src(man_storeGo, kv.Value)), " ")})
 				}
 			}
 		}
@@ -95,19 +95,19 @@ func genManifestOrder(c *ctx) error {
 	c.defStringPairs("updateManifestNewContents", fields)
 
 	// commit: the shortcut and the error → bool mapping
-	fd, err = c.mustFunc(storeGo, "NomsBlockStore", "commit")
+	fd, err = c.manMustFunc(man_storeGo, "NomsBlockStore", "commit")
 	if err != nil {
 		return err
 	}
-	evs = c.events(storeGo, fd, map[string]bool{"anyPossiblyNovelChunks": true})
-	if err := need("commit", evs, "if:!anyPossiblyNovelChunks && current == last", "call:nbs.rebase", "call:nbs.updateManifest", "call:nbs.mu.Lock", "defer:nbs.mu.Unlock"); err != nil {
+	evs = c.manEvents(man_storeGo, fd, map[string]bool{"anyPossiblyNovelChunks": true})
+	if err := manNeed("commit", evs, "if:!anyPossiblyNovelChunks && current == last", "call:nbs.rebase", "call:nbs.updateManifest", "call:nbs.mu.Lock", "defer:nbs.mu.Unlock"); err != nil {
 		return err
 	}
 	c.defStringList("commit", evs)
 	var novelDef string
 	ast.Inspect(fd.Body, func(n ast.Node) bool {
 		if as, ok := n.(*ast.AssignStmt); ok && len(as.Lhs) == 1 && exprName(as.Lhs[0]) == "anyPossiblyNovelChunks" {
-			novelDef = strings.Join(strings.Fields(c.src(storeGo, as.Rhs[0])), " ")
+			novelDef = strings.Join(strings.Fields(c.src(man_storeGo, as.Rhs[0])), " ")
 		}
 		return true
 	})
@@ -115,25 +115,25 @@ func genManifestOrder(c *ctx) error {
 
 	// rebase, errorIfDangling, handlePossibleDanglingRefError, addPendingRefsToHasCache, addChunk
 	for _, fn := range []string{"rebase", "errorIfDangling", "handlePossibleDanglingRefError", "addPendingRefsToHasCache", "addChunk", "refCheck"} {
-		fd, err := c.mustFunc(storeGo, "NomsBlockStore", fn)
+		fd, err := c.manMustFunc(man_storeGo, "NomsBlockStore", fn)
 		if err != nil {
 			return err
 		}
-		c.defStringList("nbs_"+fn, c.events(storeGo, fd, map[string]bool{"nbs.upstream": true, "nbs.tables": true, "nbs.memtable": true}))
+		c.defStringList("nbs_"+fn, c.manEvents(man_storeGo, fd, map[string]bool{"nbs.upstream": true, "nbs.tables": true, "nbs.memtable": true}))
 	}
 	// tableSet.append: checker before Persist
-	fd, err = c.mustFunc(tsGo, "tableSet", "append")
+	fd, err = c.manMustFunc(man_tsGo, "tableSet", "append")
 	if err != nil {
 		return err
 	}
-	evs = c.events(tsGo, fd, nil)
-	if err := need("tableSet.append", evs, "call:checker", "call:ts.p.Persist"); err != nil {
+	evs = c.manEvents(man_tsGo, fd, nil)
+	if err := manNeed("tableSet.append", evs, "call:checker", "call:ts.p.Persist"); err != nil {
 		return err
 	}
 	c.defStringList("tableSetAppend", evs)
 
 	// generateLockHash: what is written to the hash, in order
-	fd, err = c.mustFunc(manGo, "", "generateLockHash")
+	fd, err = c.manMustFunc(man_manGo, "", "generateLockHash")
 	if err != nil {
 		return err
 	}
@@ -143,14 +143,14 @@ func genManifestOrder(c *ctx) error {
 		ast.Inspect(n, func(x ast.Node) bool {
 			switch v := x.(type) {
 			case *ast.RangeStmt:
-				walk(v.Body, ctxs+"range "+c.src(manGo, v.X)+": ")
+				walk(v.Body, ctxs+"range "+c.src(man_manGo, v.X)+": ")
 				return false
 			case *ast.IfStmt:
-				walk(v.Body, ctxs+"if "+strings.Join(strings.Fields(c.src(manGo, v.Cond)), " ")+": ")
+				walk(v.Body, ctxs+"if "+strings.Join(strings.Fields(c.src(man_manGo, v.Cond)), " ")+": ")
 				return false
 			case *ast.CallExpr:
 				if exprName(v.Fun) == "blockHash.Write" && len(v.Args) == 1 {
-					writes = append(writes, ctxs+strings.Join(strings.Fields(c.src(manGo, v.Args[0])), " "))
+					writes = append(writes, ctxs+strings.Join(strings.Fields(c.src(man_manGo, v.Args[0])), " "))
 				}
 			}
 			return true
@@ -180,12 +180,12 @@ func genManifestOrder(c *ctx) error {
 	c.defNat("hashByteLen", bl)
 
 	// journal: ChunkJournal.Update compares the in-memory lock before anything is written
-	fd, err = c.mustFunc(jrnGo, "ChunkJournal", "Update")
+	fd, err = c.manMustFunc(man_jrnGo, "ChunkJournal", "Update")
 	if err != nil {
 		return err
 	}
-	evs = c.events(jrnGo, fd, map[string]bool{"j.contents": true})
-	if err := need("ChunkJournal.Update", evs, "if:j.contents.lock != lastLock", "call:j.wr.commitRootHash", "assign:j.contents"); err != nil {
+	evs = c.manEvents(man_jrnGo, fd, map[string]bool{"j.contents": true})
+	if err := manNeed("ChunkJournal.Update", evs, "if:j.contents.lock != lastLock", "call:j.wr.commitRootHash", "assign:j.contents"); err != nil {
 		return err
 	}
 	c.defStringList("journalUpdate", evs)
@@ -193,53 +193,53 @@ func genManifestOrder(c *ctx) error {
 }
 
 func genManifestSteps(c *ctx) error {
-	fd, err := c.mustFunc(fmGo, "", "updateWithChecker")
+	fd, err := c.manMustFunc(man_fmGo, "", "updateWithChecker")
 	if err != nil {
 		return err
 	}
-	evs := c.events(fmGo, fd, nil)
-	if err := need("updateWithChecker", evs, "call:tempfiles.MovableTempFileProvider.NewFile", "call:writeManifest", "call:temp.Sync",
+	evs := c.manEvents(man_fmGo, fd, nil)
+	if err := manNeed("updateWithChecker", evs, "call:tempfiles.MovableTempFileProvider.NewFile", "call:writeManifest", "call:temp.Sync",
 		"defer:temp.Close", "call:writeHook", "call:openIfExists", "call:parseManifest", "if:lastLock != upstream.lock", "call:validate",
 		"call:file.Rename", "call:file.SyncDirectoryHandle"); err != nil {
 		return err
 	}
 	c.defStringList("updateWithChecker", evs)
-	fd, err = c.mustFunc(fmGo, "", "checkNewSpecsPresent")
+	fd, err = c.manMustFunc(man_fmGo, "", "checkNewSpecsPresent")
 	if err != nil {
 		return err
 	}
-	c.defStringList("checkNewSpecsPresent", c.events(fmGo, fd, nil))
-	fd, err = c.mustFunc(fmGo, "fileManifest", "Update")
+	c.defStringList("checkNewSpecsPresent", c.manEvents(man_fmGo, fd, nil))
+	fd, err = c.manMustFunc(man_fmGo, "fileManifest", "Update")
 	if err != nil {
 		return err
 	}
 	// the checker closure of fileManifest.Update
-	c.defStringList("fileManifestUpdate", c.events(fmGo, fd, nil))
+	c.defStringList("fileManifestUpdate", c.manEvents(man_fmGo, fd, nil))
 	for _, fn := range []string{"pruneDirAsOf", "unlinkUnderManifestLock", "unlinkCandidates", "manifestMtimeChanged", "classifyPruneCandidate"} {
-		fd, err := c.mustFunc(pruneGo, "", fn)
+		fd, err := c.manMustFunc(man_pruneGo, "", fn)
 		if err != nil {
 			return err
 		}
-		c.defStringList(fn, c.events(pruneGo, fd, nil))
+		c.defStringList(fn, c.manEvents(man_pruneGo, fd, nil))
 	}
-	fd, err = c.mustFunc(storeGo, "NomsBlockStore", "PruneUnreferencedWithGrace")
+	fd, err = c.manMustFunc(man_storeGo, "NomsBlockStore", "PruneUnreferencedWithGrace")
 	if err != nil {
 		return err
 	}
-	evs = c.events(storeGo, fd, nil)
-	if err := need("PruneUnreferencedWithGrace", evs, "call:nbs.upstreamReferences", "closure:call:locker.LockManifest", "closure:call:addSpecsAndAppendix"); err != nil {
+	evs = c.manEvents(man_storeGo, fd, nil)
+	if err := manNeed("PruneUnreferencedWithGrace", evs, "call:nbs.upstreamReferences", "closure:call:locker.LockManifest", "closure:call:addSpecsAndAppendix"); err != nil {
 		return err
 	}
 	c.defStringList("pruneUnreferencedWithGrace", evs)
 	for _, fn := range []string{"writeAndProtect", "persistTable", "PruneTableFiles"} {
-		fd, err := c.mustFunc(ftpGo, "fsTablePersister", fn)
+		fd, err := c.manMustFunc(man_ftpGo, "fsTablePersister", fn)
 		if err != nil {
 			return err
 		}
-		c.defStringList("ftp_"+fn, c.events(ftpGo, fd, nil))
+		c.defStringList("ftp_"+fn, c.manEvents(man_ftpGo, fd, nil))
 	}
 	// manifest text: field order in writeManifest, separators, parse indices
-	fd, err = c.mustFunc(fmGo, "", "writeManifest")
+	fd, err = c.manMustFunc(man_fmGo, "", "writeManifest")
 	if err != nil {
 		return err
 	}
@@ -250,7 +250,7 @@ func genManifestSteps(c *ctx) error {
 		case *ast.AssignStmt:
 			if len(v.Lhs) == 5 && len(v.Rhs) == 5 && strings.HasPrefix(exprName(v.Lhs[0]), "strs") {
 				for _, r := range v.Rhs {
-					fieldOrder = append(fieldOrder, strings.Join(strings.Fields(c.src(fmGo, r)), " "))
+					fieldOrder = append(fieldOrder, strings.Join(strings.Fields(c.src(man_fmGo, r)), " "))
 				}
 			}
 		case *ast.CallExpr:
@@ -267,8 +267,8 @@ func genManifestSteps(c *ctx) error {
 	}
 	c.defStringList("writeManifestFields", fieldOrder)
 	c.defString("manifestSep", sep)
-	ff, _ := c.file(fmGo)
-	sf, err := c.file(storeGo)
+	ff, _ := c.file(man_fmGo)
+	sf, err := c.file(man_storeGo)
 	if err != nil {
 		return err
 	}
@@ -288,7 +288,7 @@ func genManifestSteps(c *ctx) error {
 		c.defString(n, v)
 	}
 	// parseV5Manifest: which slice index feeds which field
-	fd, err = c.mustFunc(fmGo, "", "parseV5Manifest")
+	fd, err = c.manMustFunc(man_fmGo, "", "parseV5Manifest")
 	if err != nil {
 		return err
 	}
@@ -297,29 +297,47 @@ func genManifestSteps(c *ctx) error {
 		if cl, ok := n.(*ast.CompositeLit); ok && exprName(cl.Type) == "manifestContents" {
 			for _, e := range cl.Elts {
 				if kv, ok := e.(*ast.KeyValueExpr); ok {
-					idx = append(idx, [2]string{exprName(kv.Key), strings.Join(strings.Fields(c.src(fmGo, kv.Value)), " ")})
+					idx = append(idx, [2]string{exprName(kv.Key), strings.Join(strings.Fields(c.src(man_fmGo, kv.Value)), " ")})
 				}
 			}
 		}
 		return true
 	})
 	c.defStringPairs("parseV5Fields", idx)
-	var lits []string
+	// which slice of the split text feeds which local: `lock, ok := hash.MaybeParse(slices[1])` → ("lock", "slices[1]");
+	// the parsing function's name is deliberately not extracted (the proofs only use the field positions)
+	var assigns [][2]string
 	ast.Inspect(fd.Body, func(n ast.Node) bool {
-		if ce, ok := n.(*ast.CallExpr); ok {
-			nm := exprName(ce.Fun)
-			if nm == "hash.MaybeParse" || nm == "hash.Parse" || nm == "parseSpecs" {
-				lits = append(lits, nm+"("+strings.Join(strings.Fields(c.src(fmGo, ce.Args[0])), " ")+")")
+		as, ok := n.(*ast.AssignStmt)
+		if !ok || len(as.Rhs) != 1 || len(as.Lhs) == 0 {
+			return true
+		}
+		if ce, ok := as.Rhs[0].(*ast.CallExpr); ok && len(ce.Args) == 1 {
+			arg := strings.Join(strings.Fields(c.src(man_fmGo, ce.Args[0])), " ")
+			if strings.HasPrefix(arg, "slices[") {
+				assigns = append(assigns, [2]string{exprName(as.Lhs[0]), arg})
 			}
 		}
 		return true
 	})
-	c.defStringList("parseV5Sources", lits)
-	c.defStringList("parseV5", c.events(fmGo, fd, nil))
-	fd, err = c.mustFunc(fmGo, "", "parseManifest")
+	// a field may also be filled inline in the literal: root: hash.Parse(slices[2])
+	for _, kv := range idx {
+		if i := strings.Index(kv[1], "slices["); i >= 0 {
+			j := strings.Index(kv[1][i:], "]")
+			if j > 0 {
+				assigns = append(assigns, [2]string{kv[0], kv[1][i : i+j+1]})
+			}
+		}
+	}
+	if len(assigns) < 4 {
+		return fmt.Errorf("parseV5Manifest: cannot see which slices feed lock/root/gcGen/specs: %v", assigns)
+	}
+	c.defStringPairs("parseV5Slices", assigns)
+	c.defStringList("parseV5", c.manEvents(man_fmGo, fd, nil))
+	fd, err = c.manMustFunc(man_fmGo, "", "parseManifest")
 	if err != nil {
 		return err
 	}
-	c.defStringList("parseManifest", c.events(fmGo, fd, nil))
+	c.defStringList("parseManifest", c.manEvents(man_fmGo, fd, nil))
 	return nil
 }
